@@ -147,7 +147,7 @@ export async function run() {
                   if (o2 === b.ordered) rep.violation(`C08 hash256 differs for structurally identical validators under ${vp.v.rewrite}`, `hash256 of parser ${n0} changes under ${vp.v.rewrite} although the validator trees are identical up to names`, detail);
                   else if (s2 === b.sorted) rep.violation(`C08 member order: hash256 of a union/intersection depends on the order the compiler gives its members (names, alias boundaries, source order)`, `hash256 of parser ${n0} changes under ${vp.v.rewrite}: the validators differ only in member order`, detail);
                   else if (b.skel.includes("index(inter(") && /Never/.test(classSetDiff(b.parser, p2[n1]).text)) rep.violation(`C08 hash256 changes : indexed access on an intersection with a named member is never (known C01 defect)`, `hash256 of parser ${n0} (\`${b.type}\`) changes under ${vp.v.rewrite}`, detail);
-                  else if (/(^|\+)(merge-members-differing-in-one-literal|split-literal-union-property-into-members)$/.test(vp.v.rewrite) && !oneSidedClass(b.parser, p2[n1], "AllOf")) rep.violation(`C08 hash256 changes under ${vp.v.rewrite.split("+").slice(-1)[0]} : a union of objects and one object with a literal-union property are different validator trees`, `hash256 of parser ${n0} (\`${b.type}\`) changes under ${vp.v.rewrite} (${classSetDiff(b.parser, p2[n1]).text})`, detail);
+                  else if (/(^|\+)(merge-members-differing-in-one-literal|split-literal-union-property-into-members)(\+|$)/.test(vp.v.rewrite) && !oneSidedClass(b.parser, p2[n1], "AllOf")) rep.violation(`C08 hash256 changes under ${vp.v.rewrite.split("+").find((r) => /^(merge-members|split-literal)/.test(r))} : a union of objects and one object with a literal-union property are different validator trees`, `hash256 of parser ${n0} (\`${b.type}\`) changes under ${vp.v.rewrite} (${classSetDiff(b.parser, p2[n1]).text})`, detail);
                   else if (oneSidedClass(b.parser, p2[n1], "AllOf")) rep.violation(attribute(vp.v.rewrite, (rw) => `C08 hash256 changes under ${rw} : an intersection is evaluated at run time on one side only (alias boundary of an intersection member)`), `hash256 of parser ${n0} (\`${b.type}\`) changes under ${vp.v.rewrite}: one side keeps a run-time AllOf where the other has the merged object (${classSetDiff(b.parser, p2[n1]).text})`, detail);
                   else rep.violation(attribute(vp.v.rewrite, (rw) => `C08 hash256 changes under ${rw} (different validator structure: ${classSetDiff(b.parser, p2[n1]).text})`), `hash256 of parser ${n0} (\`${b.type}\`) changes under ${vp.v.rewrite}; the compiler produced structurally different validators`, detail);
                 } else if (samples.length < 4 && stats.comparisons % 997 === 3) samples.push({ rewrite: vp.v.rewrite, parser: n0, type: b.type, hash256: b.h256.slice(0, 16), values: b.U.length });
